@@ -59,17 +59,18 @@ def sweep(behs, rng, quick):
         if k in shapes:
             by[(k, any(e["a"] == "CFin" for e in b["tr"]))].append(b)
     out = []
-    combos = [(c, n, r) for c in CIPHERS for n in (1, 3, 100) for r in (False, True)]
+    # key-list sizes 0 (a service without keys: nobody authenticates), 1, 3, 100
+    combos = [(c, n, r) for c in CIPHERS for n in (0, 1, 3, 100) for r in (False, True)]
     variants = ["random", "flip-salt", "flip-len", "flip-lentag"]
     i = 0
     for (k, fin), bl in sorted(by.items(), key=repr):
         for lens in shapes[k]:
-            cs = combos if not quick else rng.sample(combos, 6)
+            cs = combos if not quick else rng.sample(combos, 6) + [(rng.choice(CIPHERS), 0, rng.random() < 0.5)]
             for (c, n, r) in cs:
                 b = copy.deepcopy(bl[i % len(bl)])
                 i += 1
                 v = variants[i % 4] if sum(lens) >= 50 else "random"
-                b["ov"] = {"cipher": c, "nkeys": n, "replay": r, "lens": lens, "variant": v, "keypos": i}
+                b["ov"] = {"cipher": c, "nkeys": n or 1, "replay": r, "lens": lens, "variant": v, "keypos": i, "emptykeys": n == 0}
                 out.append(b)
     return out
 
@@ -121,7 +122,7 @@ def run(ctx, timed_behs, invalid_behs, rng):
             inst[c["closeAt"] - c["acceptAt"]] += 1
     ctx.cov["virtual_time"] = {"behaviours": len(behs), "sweep": len(sw),
                                "close_instant_minus_accept_ms_of_silent_probers": dict(inst),
-                               "ciphers": sorted({c["cipher"] for c in scases}), "nkeys": sorted({c["nkeys"] for c in scases}),
+                               "ciphers": sorted({c["cipher"] for c in scases}), "nkeys": sorted({0 if b["ov"].get("emptykeys") else b["ov"]["nkeys"] for b in sw}),
                                "lengths": sorted({sum(t["n"] for t in c["csent"]) for c in scases})}
     ctx.cov["distinct_nontrivial"] += len(sw) + len(pick)
     if len(inst) > 1:
